@@ -443,3 +443,17 @@ package pubsub
 //@     invariant -1 <= rangeindex && rangeindex < len(accepted) && len(tags) == len(accepted) && sub.SpaceId == old(sub.SpaceId)
 //@   loop 3:
 //@     invariant -1 <= rangeindex && rangeindex < len(accepted) && si != nil && strm != nil && sub.SpaceId == old(sub.SpaceId)
+
+// C11: frame dispatch.  The generated one-of getters are nil-safe functions of their receiver.
+//@ func (*github.com/anyproto/any-sync/commonspace/pubsub/pubsubproto.PubSubMessage).GetSubscribe
+//@   pure
+//@ func (*github.com/anyproto/any-sync/commonspace/pubsub/pubsubproto.PubSubMessage).GetUnsubscribe
+//@   pure
+//@ func (*github.com/anyproto/any-sync/commonspace/pubsub/pubsubproto.PubSubMessage).GetPublish
+//@   pure
+//@ func (*github.com/anyproto/any-sync/commonspace/pubsub/pubsubproto.PubSubMessage).GetStatus
+//@   pure
+//@ package github.com/anyproto/any-sync/commonspace/pubsub
+//@ func (*service).HandleMessage
+//@   requires s != nil
+//@   assumes msg != nil ==> ifaceptr(msg) != nil
